@@ -288,7 +288,7 @@ def c10(ctx):
         raise ToolError("transition tour left %d edges uncovered" % st["uncovered"])
     ctx.notes.append("Gen_Mem: %d transitions of %d states covered by %d histories (%d steps)" % (st["edges"], st["states"], st["histories"], st["steps"]))
     if ctx.quick():
-        hists = [x for i, x in enumerate(hists) if (i + ctx.seed) % 100 == 0]
+        hists = [x for i, x in enumerate(hists) if (i + ctx.seed) % 250 == 0]
     else:
         hists = [x for i, x in enumerate(hists) if (i + ctx.seed) % 4 == 0]
     genf = os.path.join(ctx.gen, "mem_hist.ndjson")
@@ -296,8 +296,8 @@ def c10(ctx):
         for x in hists:
             f.write(json.dumps(x) + "\n")
     tr = os.path.join(ctx.traces, "mem.ndjson")
-    nh, ln = (25, 40) if ctx.quick() else (400, 60)
-    sv(binary, ["mem", "--gen", genf, "--seed", ctx.seed, "--hist", nh, "--len", ln, "--out", tr])
+    nh, ln = (12, 40) if ctx.quick() else (400, 60)
+    sv(binary, ["mem", "--gen", genf, "--seed", ctx.seed, "--hist", nh, "--len", ln, "--out", tr], ctx=ctx)
     trace = read_trace(tr)
     mism = trace_check(ctx, "Trace_Mem", tr)
     seg, segs, impl_of = 0, [], []
@@ -330,7 +330,7 @@ def c10(ctx):
     ctx.rule = ("MC_Mem: ownership model (2 terms, 3 instances, 6 heap cells) - rebuilt clone satisfies SelfContained/NoDangling/NoUseAfterFree/Bijection on all 17,787 states, verbatim clone refuted; "
                 "Gen_Mem: transitions of that model (new/ensure/clone/drop/swap/move/read) sampled 1/%d into histories replayed on SimpleTermIndex<u16|u32> and the 8 in-memory stores with three term pools (incl. owned quoted triples); "
                 "%d random histories x %d ops per implementation with growth across reallocation thresholds; after EVERY step every live instance is audited through the verif_hooks accessors and read only if the audit passes. "
-                "distinct = distinct (op, observation) pairs of ownership-changing ops" % (100 if ctx.quick() else 4, nh, ln))
+                "distinct = distinct (op, observation) pairs of ownership-changing ops" % (250 if ctx.quick() else 4, nh, ln))
     ctx.assumptions += ["the audit compares pointer ranges and never dereferences foreign memory, so it does not itself commit the undefined behaviour it looks for",
                         "undefined behaviour outside the self-referential term index (std collections) is out of scope"]
 
